@@ -1,6 +1,7 @@
 import FlVerif.Lemmas.PyTables
 import FlVerif.Lemmas.CodeRepr
 import FlVerif.Lemmas.CodePyExportRepr
+import FlVerif.Lemmas.CodePyExportObject
 
 /-! # C15 — Python export reconstructs an identical engine
 
@@ -16,8 +17,14 @@ never / conditionally passed, the probed condition) and the class → module tab
 every run; the side conditions on them are discharged by evaluation in the kernel (`decide`), so an edit that makes
 a `__repr__` drop a field whose default differs re-opens the obligation.
 
+The text level (`Op/PyExport.lean`: `render` of a call tree, `importStatement`, `encapsulate`, `exportText`) is tied to
+the code by the `code_*` theorems below: prefix (`package_of`), import statement, `as_constructor`, the dispatch of
+`repr` on the type name, `repr_float`, `repr_ndarray`, the `__repr__` of `Rule` / `RuleBlock` / `Variable` /
+`OutputVariable`, and the wrapper of `PythonExporter`.
+
 Outside these theorems (carried by the correspondence): the leaf texts `repr(float)` / `repr(str)`, executing the
-source, `black`, the `class` / `def create()` wrapper of `PythonExporter.encapsulate`, bit-identical outputs. -/
+source, `black`, bit-identical outputs; the elision limits of `reprlib` (`maxlevel` 10 for directly nested lists,
+6·10⁶ elements, 3·10⁷ characters of a string or of a nested object's text), beyond which the library prints `...`. -/
 
 namespace C15
 open Op.PyRepr Op.FllIO Dec Spec.Fll
@@ -84,6 +91,22 @@ theorem render_call (L : Leaf) (pfx cls : String) (kws : List (Option String)) (
     Op.PyRepr.render L (.node (.call pfx cls kws) kids) =
       pfx ++ cls ++ "(" ++ ", ".intercalate ((kws.zip (renderList L kids)).map argText) ++ ")" := by
   simp [Op.PyRepr.render]
+
+/-- **the text the code prints for an object is the rendered model tree.**  `textFields` = for every field the
+    `__repr__` of the class passes on (`passed`, tied for `RuleBlock` / `Variable` / `OutputVariable` below), the text
+    `self.repr` gives for its value, assumed to be the rendered model tree of that value (the recursion goes through
+    `repr1`, `repr_instance` and the `__repr__` of the field); then the translated `as_constructor` (with
+    `construction_arguments` = `emit`, `package_of` = `packageOf`) returns `render (asConstructor env obj)`, and raises
+    `ValueError` exactly where the model tree is `invalid` -/
+theorem code_reprObject (L : Leaf) (env : Env) (cls : String) (names : List String) (kids : List Val) (sig ps : List Param)
+    (info : ReprInfo) (hp : paramsOf cls = some ps) (hi : reprInfoOf cls = some info)
+    (hu : info.cond.any (fun c => c.2 == .unknown) = false) (hsig : notSelf sig = ps) :
+    match emit (textFields L env ps info names kids) info.positional ps with
+    | some _ => ∃ σ, Gen.Code.as_constructor.run false sig (textFields L env ps info names kids) info.positional env.aliasName
+          (some (moduleOf cls)) cls {} = .ok σ ∧ σ.ret = some (reprText L env (.node (.obj cls names) kids))
+    | none => Gen.Code.as_constructor.run false sig (textFields L env ps info names kids) info.positional env.aliasName
+          (some (moduleOf cls)) cls {} = .error .value ∧ asConstructor env (.node (.obj cls names) kids) = .atom .invalid :=
+  Op.PyRepr.code_reprObject L env cls names kids sig ps info hp hi hu hsig
 
 /-- `Representation.repr` (inherited from `reprlib.Repr`): `repr1` at the level `maxlevel` (10, read from the live
     `representation` object) -/
@@ -245,7 +268,9 @@ theorem modules_of_tables_plain :
 theorem prefix_of_examples :
     packageOf "fl" "fuzzylite.examples.mamdani.x" = "fl.examples.mamdani.x." ∧
     packageOf "*" "fuzzylite.examples.mamdani.x" = ".examples.mamdani.x." ∧
-    packageOf "" "fuzzylite.examples.mamdani.x" = "fuzzylite.examples.mamdani.x." := by decide +kernel
+    packageOf "" "fuzzylite.examples.mamdani.x" = "fuzzylite.examples.mamdani.x." ∧
+    packageOf "fl." "fuzzylite.term" = "fl." ∧ packageOf "fl." "fuzzylite.examples.mamdani.x" = "fl..examples.mamdani.x." := by
+  decide +kernel
 
 /-- `repr (eval (repr o)) = repr o` for objects that carry their constructor parameters -/
 theorem repr_fixed_point (env : Env) (h0 : 0 ≤ env.cfg.tol) (v : Val) (hc : Complete v) (hr : RulesOK v)
